@@ -179,7 +179,9 @@ class GenIndex:
             pm = PROPS_RE.search(head)
             props = pm.group(1).split() if pm else []
             name = (ck + "::" if ck else "") + it.name
-            self.funcs.append({"name": name, "lo": lo, "hi": hi, "exec": it.exec_fn, "props": props,
+            mode = "exec" if it.exec_fn else ("proof" if re.search(r"\bproof\s+fn\b", head) else "spec")
+            self.funcs.append({"name": name, "lo": lo, "hi": hi, "exec": it.exec_fn, "props": props, "mode": mode,
+                               "body_off": (body_start + toks[it.body_lo].end) if it.body_lo >= 0 else -1,
                                "external_body": "external_body" in head, "text": txt,
                                "body_line": self.line_of(body_start + toks[it.body_lo].start) if it.body_lo >= 0 else lo})
         for it in items:
@@ -225,7 +227,9 @@ def classify(diag):
     definite = ("postcondition not satisfied", "precondition not satisfied", "assertion failed", "invariant not satisfied",
                 "decreases not satisfied", "possible arithmetic underflow/overflow", "possible division by zero",
                 "recommendation not met", "unreachable", "loop invariant", "could not prove termination",
-                "possible bit shift underflow/overflow", "failed this", "might fail", "not satisfied")
+                "possible bit shift underflow/overflow")
+    if diag.get("code"):
+        return "tool"  # a rustc error (type error, syntax, ...) is never a verification verdict
     if "rlimit" in msg.lower() or "resource limit" in msg.lower() or "timed out" in msg.lower() or "took too long" in msg.lower():
         return "resource"
     for d in definite:
@@ -325,3 +329,49 @@ def count_obligations(f):
     n_panic += len(re.findall(r"\.(expect|unwrap)\(", t))
     n_index = len(re.findall(r"\w\[[^\]]+\]", t))
     return {"clauses": n_ens, "asserts": n_assert, "panic_sites": n_panic, "index_sites": n_index}
+
+
+VACUITY_MARK = "assert(false); // @vacuity-probe"
+
+
+def vacuity_variant(gen_text, gi):
+    """insert `assert(false)` at the start of every contracted exec fn and proof fn body"""
+    ins = []
+    for f in gi.funcs:
+        if f["mode"] == "spec" or f["external_body"] or f["body_off"] < 0:
+            continue
+        if f["mode"] == "exec":
+            ins.append((f["body_off"], "\n proof { %s\n }\n" % VACUITY_MARK))
+        else:
+            ins.append((f["body_off"], "\n %s\n" % VACUITY_MARK))
+    out, pos = [], 0
+    for off, txt in sorted(ins):
+        out.append(gen_text[pos:off])
+        out.append(txt)
+        pos = off
+    out.append(gen_text[pos:])
+    return "".join(out)
+
+
+def vacuity_check(g, tag="std"):
+    """returns (vacuous_functions, probed_count, result)"""
+    gi = GenIndex(g["gen_text"])
+    vt = vacuity_variant(g["gen_text"], gi)
+    vp = os.path.join(BUILD, tag, "indextree_vx_vacuity.rs")
+    open(vp, "w").write(vt)
+    r = run_verus(vp, vt, label="vacuity")
+    vgi = GenIndex(vt)
+    probed = [f["name"] for f in vgi.funcs if VACUITY_MARK in f["text"]]
+    hit = set()
+    for d in r["diags"]:
+        if d.get("level") != "error":
+            continue
+        for sp in d.get("spans", []):
+            if sp.get("is_primary"):
+                ln = sp["line_start"]
+                if VACUITY_MARK in vgi.lines[ln - 1]:
+                    f = vgi.func_at(ln)
+                    if f:
+                        hit.add(f["name"])
+    vacuous = [n for n in probed if n not in hit]
+    return vacuous, len(probed), r
